@@ -38,6 +38,17 @@ let wkind_of (kind : string) (h : int) (aux : int) : wkind =
 
 let rec take k l = if k <= 0 then [] else match l with [] -> [] | x :: t -> x :: take (k-1) t
 
+(* the rotation marks of an image: "-" or "c1,c2,..": a cut after that many records of the list *)
+let cuts_of (s : string) : int list =
+  if s = "-" then [] else List.map int_of_string (String.split_on_char ',' s)
+
+let with_cuts (cuts : int list) (recs : rkind list) : rkind list =
+  let rec go idx cuts recs =
+    match cuts with
+    | c :: ct when c <= idx -> RRot :: go idx ct recs
+    | _ -> (match recs with [] -> [] | r :: t -> r :: go (idx + 1) cuts t) in
+  go 0 cuts recs
+
 let db_prefix (lf : life) k =
   List.filter_map (fun x -> x) (take k (Array.to_list lf.writes))
 
@@ -93,17 +104,20 @@ let () =
           match next () with
           | Some ("W" :: "db" :: kind :: h :: aux :: _) -> Some (wkind_of kind (int_of_string h) (int_of_string aux))
           | Some ("W" :: "wal" :: _) -> None
+          | Some ("W" :: "rot" :: _) -> None
           | _ -> failwith "expected W") in
       Hashtbl.replace lives id { parent; writes; recs };
       loop ()
-    | Some ["K"; k; tl; nrecs] ->
+    | Some ["K"; k; tl; nrecs; cuts] ->
       let l0 = Hashtbl.find lives 0 in
-      let im = mk_image (db_prefix l0 (int_of_string k)) (take (int_of_string nrecs) (Array.to_list l0.recs)) in
+      let im = mk_image (db_prefix l0 (int_of_string k))
+          (with_cuts (cuts_of cuts) (take (int_of_string nrecs) (Array.to_list l0.recs))) in
       print_endline (observe !sc (tail_of tl) true im); loop ()
-    | Some ["X"; id; k; j; tl; n0; n1] ->
+    | Some ["X"; id; k; j; tl; n0; n1; cuts] ->
       let l0 = Hashtbl.find lives 0 and l1 = Hashtbl.find lives (int_of_string id) in
       let im = mk_image (db_prefix l0 (int_of_string k) @ db_prefix l1 (int_of_string j))
-          (take (int_of_string n0) (Array.to_list l0.recs) @ take (int_of_string n1) (Array.to_list l1.recs)) in
+          (with_cuts (cuts_of cuts)
+             (take (int_of_string n0) (Array.to_list l0.recs) @ take (int_of_string n1) (Array.to_list l1.recs))) in
       print_endline (observe !sc (tail_of tl) false im); loop ()
     | Some l -> failwith ("bad line: " ^ String.concat " " l)
   in
